@@ -367,21 +367,22 @@ def random_gen(rng):
     return gen
 
 
-def random_sequences(ctx, n, depth):
+def random_sequences(ctx, n, depth, gen_factory=None, kind=None):
     rng = ctx.rng
+    gen_factory = gen_factory or random_gen
     seqs, traces = [], []
     for k in range(n):
         seq = {"own": rng.choice([1, 50, 4_000_000_000]), "profile": rng.randrange(0, 5),
                "t0": rng.choice([T0_DEFAULT, T0_DEFAULT + rng.randrange(0, 10 ** 6), 0, 1024]),
                "mode": ("coder", "decoded", "dict")[k % 3], "events": []}
-        trace, fails = run_impl(seq, gen=random_gen(rng), depth=depth)
+        trace, fails = run_impl(seq, gen=gen_factory(rng), depth=depth)
         seqs.append(seq)
         traces.append(trace)
         if fails:
             report_failures(ctx, seq, fails)
         if k == 0:
             ctx.sample({"random_sequence_prefix": seq["events"][:12], "final_state": trace[-1][1]["vst"] if trace else None})
-    check_batch(ctx, seqs, f"random_depth{depth}", traces=traces)
+    check_batch(ctx, seqs, kind or f"random_depth{depth}", traces=traces)
 
 
 def scenario_sequences():
@@ -509,6 +510,7 @@ class Station:
         self.fails = []
         self.silent = False
         self.last_sent_round = 0
+        self.last_sent_ticks = None
 
     def record(self, ev, ret):
         obs = self.impl.dump()
@@ -546,9 +548,30 @@ def vam_to_event(dec):
               breakup=None if bk is None else BREAKUP_REASONS.index(bk["clusterBreakupReason"]))
 
 
+AUDIT_ORACLES = True     # audit round: operation container on the air, no suppression outside passive / idle
+
+
+def op_on_air(dec):
+    """the cluster operation container of a decoded VAM in the shape of Impl.dump()["op"] (own reading of the message)"""
+    opc = dec["vam"]["vamParameters"].get("vruClusterOperationContainer")
+    if not opc:
+        return [0, 0, 0]
+    keys = sorted(opc)
+    if keys == ["clusterJoinInfo"]:
+        return [1, opc["clusterJoinInfo"].get("clusterId"), opc["clusterJoinInfo"].get("joinTime")]
+    if keys == ["clusterLeaveInfo"]:
+        return [2, opc["clusterLeaveInfo"].get("clusterId"),
+                LEAVE_REASONS.index(opc["clusterLeaveInfo"]["clusterLeaveReason"])]
+    if keys == ["clusterBreakupInfo"]:
+        return [3, BREAKUP_REASONS.index(opc["clusterBreakupInfo"]["clusterBreakupReason"]),
+                opc["clusterBreakupInfo"].get("breakupTime")]
+    return [9, 0, 0]
+
+
 def closed_loop(ctx, params):
-    """params: {"joiners": 1|2, "ending": "breakup"|"silent"|"leave"|"cpm", "reason": int, "dts": [...],
-                "draws": [...], "join_offsets": [...]}"""
+    """params: {"joiners": 1|2, "ending": "breakup"|"silent"|"leave"|"cpm" | (audit round) "idle_member"|"idle_leader"|
+                "cancel"|"failed", "reason": int, "dts": [...], "draws": [...], "join_offsets": [...],
+                "second": bool (audit round: afterwards the first joiner creates a cluster and the former leader joins it)}"""
     from flexstack.btp.service_access_point import BTPDataIndication
     from flexstack.utils import time_service
     inp = dict(params, op="closed_loop")
@@ -558,6 +581,14 @@ def closed_loop(ctx, params):
     try:
         nj = params["joiners"]
         st = [Station(1 + i, clock, i) for i in range(1 + nj)] + [Station(100 + i, clock, 3 + i) for i in range(3)]
+        if params.get("layout"):
+            # audit round: stations east / west / south / diagonal of the reference position, up to 3.9 m away (every
+            # manager is asked with the reference position as its own, as in the manager-level sequences)
+            for s_, pidx in zip(st, params["layout"]):
+                if not ci.pos_near(pidx):
+                    raise AssertionError("closed-loop layout uses positions within range only")
+                lat_w, lon_w = ci.pos_latlon(pidx)
+                s_.lat, s_.lon = lat_w / 1e7, lon_w / 1e7
         lead, joiners = st[0], st[1:1 + nj]
         dts = params["dts"]
         rounds = [0]
@@ -576,6 +607,7 @@ def closed_loop(ctx, params):
                 if s.silent:
                     continue
                 s.btp.sent.clear()
+                o_before = s.trace[-1][1]
                 try:
                     s.tx.location_service_callback(s.tpv(clock))
                 except Exception as e:  # noqa: BLE001
@@ -586,18 +618,40 @@ def closed_loop(ctx, params):
                                            f"its VAM: {type(e).__name__}: {str(e)[:160]}"))
                     continue
                 o = s.trace[-1][1]
+                if AUDIT_ORACLES and o_before["tx"] == 1 and not s.btp.sent:
+                    # position, speed and heading are constant: the one trigger is T_GenVam (constant T_GenVamMin here)
+                    since = None if s.last_sent_ticks is None else (clock.ticks - s.last_sent_ticks) * 1000 / ci.TPS
+                    if since is None or since >= ci.modules()[1].T_GENVAMMIN + 3:
+                        fails.append(("transmit_suppressed_wrongly",
+                                      f"station {s.sid} ({ci.STATE_NAMES[o['vst']]}, join sub-state {ci.JSUB[o['js']]}) is "
+                                      f"neither passive nor idle, its last VAM is "
+                                      f"{'none' if since is None else round(since)} ms old, and it generated no VAM"))
                 if s.btp.sent:
                     s.last_sent_round = rounds[0]
+                    s.last_sent_ticks = clock.ticks
                 if o["tx"] == 0 and s.btp.sent:
                     fails.append(("transmit_gate", f"station {s.sid} sent a VAM while suppressed"))
                 for data in list(s.btp.sent):
-                    dec = ci.coder().decode(data)
-                    ev = vam_to_event(dec)
+                    try:
+                        dec = ci.coder().decode(data)
+                        ev = vam_to_event(dec)
+                    except Exception as e:  # noqa: BLE001 - octets on the air that no receiver can read (seed C18-6)
+                        found = wire_check(s.mgr, o)
+                        for cls in sorted({c for c, _ in found}) or ["cluster_info_not_encodable"]:
+                            fails.append((cls, f"station {s.sid} (state {ci.STATE_NAMES[o['vst']]}, cluster {o['cluster']}) "
+                                               f"put a VAM on the air that cannot be decoded: {type(e).__name__}: "
+                                               f"{str(e)[:120]}"))
+                        continue
                     # what is on the air is what the manager offered
                     want_info = None if o["info"] is None else [o["info"][0], o["info"][2]]
                     if ev[1]["info"] != want_info:
                         fails.append(("cluster_info_not_encodable", f"station {s.sid}: cluster information on the "
                                       f"air {ev[1]['info']} differs from the manager's {want_info}"))
+                    if AUDIT_ORACLES and op_on_air(dec) != o["op"]:
+                        # a notification lasts its duration on the air, not only in the manager
+                        fails.append(("cluster_op_not_on_air", f"station {s.sid}: cluster operation container on the air "
+                                      f"{op_on_air(dec)} differs from what the manager offers {o['op']} "
+                                      "([kind 1 join / 2 leave / 3 break-up, id or reason, time or reason])"))
                     if ev[1]["info"] is not None:
                         for r in st:
                             if r is not s:
@@ -620,6 +674,7 @@ def closed_loop(ctx, params):
         for _ in range(2):
             round_()
         cid = None
+        ending = params["ending"]
         for k, j in enumerate(joiners):
             cid = advertised.get(j.sid)
             if cid is None:
@@ -628,22 +683,79 @@ def closed_loop(ctx, params):
                 continue
             for _ in range(params["join_offsets"][k % len(params["join_offsets"])]):
                 round_()
-            ret, o = j.command(["join", cid])
+            # audit round, ending "failed": the join goes towards an identifier nobody advertises
+            target = cid if ending != "failed" else cid % 255 + 1
+            ret, o = j.command(["join", target])
             if ret != 1:
-                fails.append(("closed_loop_join_refused", f"initiate_join({cid}) refused in state {o['vst']}"))
-        # notification + success window, plus two rounds
-        t_end = clock.ticks + lead.oracle.TJN + lead.oracle.TJS + 2 * max(dts)
-        while clock.ticks < t_end:
-            round_()
-        for j in joiners:
-            o = j.trace[-1][1]
-            if not (o["vst"] == 3 and o["cid"] == cid and o["leader"] == lead.sid and o["tx"] == 0):
-                fails.append(("closed_loop_join_never_completes",
-                              f"station {j.sid} initiated a join towards the advertised cluster {cid} but is "
-                              f"{ci.STATE_NAMES[o['vst']]} (cluster {o['cid']}) after notification + success time"))
+                fails.append(("closed_loop_join_refused", f"initiate_join({target}) refused in state {o['vst']}"))
+        if ending == "cancel":
+            # audit round: part of the join notification goes on the air, then the join is cancelled (clusterLeaveInfo with
+            # reason cancelledJoin for timeClusterLeaveNotification); the station keeps transmitting throughout
+            t_end = clock.ticks + params.get("cancel_after", 1024)
+            while clock.ticks < t_end:
+                round_()
+            for j in joiners:
+                j.command(["cancel"])
+            for _ in range(3):
+                round_()
+            o = lead.trace[-1][1]
+            if o["cluster"] is not None and o["cluster"]["card"] != 1:
+                fails.append(("closed_loop_leave_not_counted", f"leader still counts {o['cluster']['card']} members "
+                                                               "after all joining stations announced the cancelled join"))
+            t_end = clock.ticks + lead.oracle.TLN + 2 * max(dts)
+            while clock.ticks < t_end:
+                round_()
+        elif ending == "failed":
+            # audit round: nobody answers; failed join -> clusterLeaveInfo (failedJoin) -> plain individual VAMs again
+            t_end = clock.ticks + lead.oracle.TJN + lead.oracle.TJS + lead.oracle.TLN + 4 * max(dts)
+            while clock.ticks < t_end:
+                round_()
+        else:
+            # notification + success window, plus two rounds
+            t_end = clock.ticks + lead.oracle.TJN + lead.oracle.TJS + 2 * max(dts)
+            while clock.ticks < t_end:
+                round_()
+            for j in joiners:
+                o = j.trace[-1][1]
+                if not (o["vst"] == 3 and o["cid"] == cid and o["leader"] == lead.sid and o["tx"] == 0):
+                    fails.append(("closed_loop_join_never_completes",
+                                  f"station {j.sid} initiated a join towards the advertised cluster {cid} but is "
+                                  f"{ci.STATE_NAMES[o['vst']]} (cluster {o['cid']}) after notification + success time"))
         lo = lead.trace[-1][1]
-        ending = params["ending"]
-        if ending in ("breakup", "cpm"):
+        if ending in ("cancel", "failed"):
+            for j in joiners:
+                o = j.trace[-1][1]
+                if not (o["vst"] == 1 and o["tx"] == 1 and o["op"] == [0, 0, 0]):
+                    fails.append(("closed_loop_join_abandon_no_recovery",
+                                  f"station {j.sid} is {ci.STATE_NAMES[o['vst']]} with operation container {o['op']} after "
+                                  f"a {ending} join and its leave notification"))
+        elif ending in ("idle_member", "idle_leader"):
+            # audit round: VRU_ROLE_OFF in the closed loop: the idle station is silent on the air, the others carry on
+            # (members of an idle leader recover through the leader-lost timer), VRU_ROLE_ON brings it back on the air
+            who = joiners[0] if ending == "idle_member" else lead
+            who.command(["role_off"])
+            t_end = clock.ticks + (1536 if ending == "idle_member" else lead.oracle.TCC + 2 * max(dts))
+            while clock.ticks < t_end:
+                round_()
+            o = who.trace[-1][1]
+            if not (o["vst"] == 0 and o["tx"] == 0):
+                fails.append(("transmit_gate", f"station {who.sid} after VRU_ROLE_OFF: {ci.STATE_NAMES[o['vst']]}, "
+                                               f"should_transmit {o['tx']}"))
+            if ending == "idle_leader":
+                for j in joiners:
+                    o = j.trace[-1][1]
+                    if not (o["vst"] == 1 and o["tx"] == 1):
+                        fails.append(("leader_lost_no_recovery", f"station {j.sid} still {ci.STATE_NAMES[o['vst']]} "
+                                                                 "although the leader went idle and silent"))
+            who.command(["role_on"])
+            for _ in range(3):
+                round_()
+            o = who.trace[-1][1]
+            if not (o["vst"] == 1 and o["tx"] == 1) or rounds[0] - who.last_sent_round > 2:
+                fails.append(("closed_loop_member_stays_silent", f"station {who.sid} is {ci.STATE_NAMES[o['vst']]} and has "
+                                                                 f"not sent a VAM in the last {rounds[0] - who.last_sent_round} "
+                                                                 "rounds after VRU_ROLE_ON"))
+        elif ending in ("breakup", "cpm"):
             reason = CPM if ending == "cpm" else params["reason"]
             ret, o = lead.command(["breakup", reason])
             if ret != 1:
@@ -681,8 +793,60 @@ def closed_loop(ctx, params):
             t_end = clock.ticks + lead.oracle.TLN + 2 * max(dts)
             while clock.ticks < t_end:
                 round_()
+        if params.get("second") and ending == "breakup":
+            # audit round: a second cluster with the roles swapped - the first joiner creates it (its first draw is the
+            # identifier of the first cluster, heard within timeClusterUniquenessThreshold: it must not be reused), the
+            # former leader and the other joiner join what they see advertised, the new leader breaks up
+            lead2, members2 = joiners[0], [lead] + joiners[1:]
+            ret, o = lead2.command(["try_create", [cid if cid is not None else 1] + list(params["draws2"])])
+            cid2 = o["cluster"]["id"] if o["cluster"] else None
+            if ret != 1 or o["vst"] != 2:
+                fails.append(("closed_loop_no_cluster", f"station {lead2.sid} with {o['counts'][0]} neighbours within range "
+                                                        "could not create the second cluster"))
+            elif cid2 == cid:
+                fails.append(("state_inconsistent", f"second cluster reuses identifier {cid}, heard "
+                                                    "less than timeClusterUniquenessThreshold ago"))
+            for _ in range(2):
+                round_()
+            if cid2 is None:
+                members2 = []       # nothing to join; the failure is recorded above
+            for m in members2:
+                seen_id = advertised.get(m.sid)
+                if seen_id != cid2:
+                    fails.append(("closed_loop_cluster_not_advertised", f"station {m.sid} sees cluster {seen_id} "
+                                                                        f"advertised, the new leader leads {cid2}"))
+                    continue
+                ret, o = m.command(["join", cid2])
+                if ret != 1:
+                    fails.append(("closed_loop_join_refused", f"second cycle: initiate_join({cid2}) refused in state "
+                                                              f"{ci.STATE_NAMES[o['vst']]} (operation container {o['op']})"))
+            t_end = clock.ticks + lead.oracle.TJN + lead.oracle.TJS + 2 * max(dts)
+            while clock.ticks < t_end:
+                round_()
+            for m in members2:
+                o = m.trace[-1][1]
+                if not (o["vst"] == 3 and o["cid"] == cid2 and o["leader"] == lead2.sid and o["tx"] == 0):
+                    fails.append(("closed_loop_join_never_completes",
+                                  f"second cycle: station {m.sid} initiated a join towards the advertised cluster {cid2} "
+                                  f"but is {ci.STATE_NAMES[o['vst']]} (cluster {o['cid']}) after notification + success time"))
+            if cid2 is not None:
+                lead2.command(["breakup", params["reason"]])
+            for _ in range(3):
+                round_()
+            for m in members2:
+                o = m.trace[-1][1]
+                if not (o["vst"] == 1 and o["tx"] == 1):
+                    fails.append(("breakup_no_recovery", f"second cycle: station {m.sid} still "
+                                                         f"{ci.STATE_NAMES[o['vst']]} after the leader's break-up VAMs"))
+            t_end = clock.ticks + lead.oracle.TBW + 3 * max(dts)
+            while clock.ticks < t_end:
+                round_()
+            for m in members2 + [lead2]:
+                if rounds[0] - m.last_sent_round > 2:
+                    fails.append(("closed_loop_member_stays_silent", f"second cycle: station {m.sid} has not sent a VAM in "
+                                                                     f"the last {rounds[0] - m.last_sent_round} rounds"))
         # a recovered member is really on the air again
-        if ending in ("breakup", "silent", "leave"):
+        if ending in ("breakup", "silent", "leave", "cancel", "failed", "idle_leader"):
             for j in joiners:
                 if rounds[0] - j.last_sent_round > 2:
                     fails.append(("closed_loop_member_stays_silent", f"station {j.sid} has not sent a VAM in the last "
@@ -691,8 +855,11 @@ def closed_loop(ctx, params):
             for (i, cls, detail) in s.fails:
                 fails.append((cls, f"station {s.sid}, event {i}: {detail}"))
         nev = sum(len(s.events) for s in st)
-        ctx.count(nev, f"closed_loop_{1 + nj}_stations_{ending}")
-        ctx.nontriv(("loop", nj, ending, params.get("reason"), tuple(params["dts"]), tuple(params["join_offsets"])))
+        ctx.count(nev, f"closed_loop_{1 + nj}_stations_{ending}" + ("_second_cycle" if params.get("second") else "")
+                  + ("_spread_layout" if params.get("layout") else "")
+                  + ("_varied_rounds" if max(dts) > 130 or min(dts) < 100 else ""))
+        ctx.nontriv(("loop", nj, ending, params.get("reason"), tuple(params["dts"]), tuple(params["join_offsets"]),
+                     bool(params.get("second"))))
         seen = set()
         for cls, detail in fails:
             if cls not in seen:
@@ -724,6 +891,118 @@ def loop_params(rng, joiners, ending):
             "t_off": rng.randrange(0, 100000)}
 
 
+
+# ---------------------------------------------------------------------------
+# audit round: inputs the first generators never produced (design/C18.md "Audit round: gaps closed")
+
+ROUND_CHOICES = [52, 60, 103, 110, 205, 256, 400, 512, 700, 1024, 1300]
+
+
+def loop_params2(rng, joiners, ending, varied=True, second=False):
+    p = loop_params(rng, joiners, ending)
+    if varied:
+        # rounds from 50 ms to well over a second (below timeClusterContinuity, or every member would lose its leader)
+        k = rng.choice((1, 1, 2, 3))
+        p["dts"] = [rng.choice(ROUND_CHOICES) for _ in range(k)]
+    if ending == "cancel":
+        # the cancel must fall into the join notification of every joiner: joins start together and the last round before
+        # the cancel ends at most 1500 + 700 ticks after them (timeClusterJoinNotification = 3072 ticks)
+        p["cancel_after"] = rng.choice((103, 512, 1024, 1500))
+        p["join_offsets"] = [0]
+    if ending in ("cancel", "leave"):
+        # these two endings expect the leader to HEAR the leave indication: the station must have a VAM generation event
+        # within timeClusterLeaveNotification (1024 ticks) of the command, i.e. a round shorter than that (a station that
+        # generates VAMs every 1.3 s never puts a 1 s notification on the air - that is not a clause of C18)
+        p["dts"] = [min(d, 700) for d in p["dts"]]
+    if second:
+        p["second"] = True
+        p["draws2"] = [rng.choice([d for d in range(1, 256) if d != p["draws"][0]])]
+    return p
+
+
+def audit_loops(ctx, n):
+    """closed loops with (a) the endings cancel / failed join / VRU_ROLE_OFF of a member / of the leader, (b) rounds of
+    50 ms .. 1.3 s instead of 100 ms only, (c) a second cluster after the first with the roles swapped"""
+    rng = ctx.rng
+    plan = []
+    for e in ("cancel", "failed", "idle_member", "idle_leader"):
+        plan += [(1, e, False, False), (2, e, True, False)]
+    for e in ("breakup", "silent", "leave", "cpm"):
+        plan += [(rng.choice((1, 2)), e, True, False)]
+    plan += [(1, "breakup", False, True), (2, "breakup", True, True)]
+    near_pos = [i for i in range(len(ci.POSITIONS)) if ci.pos_near(i) and ci.POSITIONS[i] != (0.0, 0.0)]
+    for k in range(n):
+        for nj, e, varied, second in plan:
+            res = closed_loop(ctx, loop_params2(rng, nj, e, varied=varied, second=second))
+            if k == 0:
+                ctx.sample({"closed_loop": {"joiners": nj, "ending": e, "second_cycle": second}, "result": res}, cap=14)
+        # the same with the stations spread around the reference position instead of in a row to the north of it
+        for nj, e, varied, second in ((1, "breakup", False, True), (2, "leave", False, False), (2, "silent", True, False)):
+            p = loop_params2(rng, nj, e, varied=varied, second=second)
+            p["layout"] = [17] + [i for i in near_pos if ci.POSITIONS[i][1] != 0.0][:5]
+            rng.shuffle(p["layout"])
+            res = closed_loop(ctx, p)
+            if k == 0:
+                ctx.sample({"closed_loop": {"joiners": nj, "ending": e, "second_cycle": second}, "result": res}, cap=14)
+
+
+def random_gen_positions(rng):
+    """the adaptive generator of random_gen, with senders placed in every direction (east / west / south / diagonal, at
+    3.8-3.9 m and 6.3-6.5 m as well as 1 m and 111 m) and leave indications carrying every ClusterLeaveReason"""
+    inner = random_gen(rng)
+    near_pos = [i for i in range(len(ci.POSITIONS)) if ci.pos_near(i)]
+    far_pos = [i for i in range(len(ci.POSITIONS)) if not ci.pos_near(i)]
+
+    def gen(impl, obs):
+        ev = inner(impl, obs)
+        if ev[0] == "rx":
+            v = ev[1]
+            if rng.random() < 0.8:
+                v["pos"] = rng.choice(near_pos if v["near"] else far_pos)
+            if v.get("leave") is not None:
+                v["leave_reason"] = rng.randrange(0, 9)
+        return ev
+
+    return gen
+
+
+def audit_sequences(ctx, n_random):
+    """manager-level sequences: cluster creation with the neighbours in every direction around the 5 m limit, received
+    leave indications with every reason, random sequences with such senders"""
+    near_pos = [i for i in range(len(ci.POSITIONS)) if ci.pos_near(i)]
+    far_pos = [i for i in range(len(ci.POSITIONS)) if not ci.pos_near(i)]
+
+    def at(sender, pos, **kw):
+        ev = rx(sender, near=ci.pos_near(pos), **kw)
+        ev[1]["pos"] = pos
+        return ev
+
+    sc = []
+    # exactly NUM_CREATE_CLUSTER neighbours within range, each triple of near positions, all far ones present too
+    fars = [at(200 + k, p) for k, p in enumerate(far_pos)]
+    for a, b, c in itertools.combinations(near_pos, 3):
+        sc.append(("create_3_near", fars + [at(100, a), at(101, b), at(102, c), ["try_create", [7]], ["update"]]))
+    for a, b in itertools.combinations(near_pos, 2):
+        sc.append(("create_2_near", fars + [at(100, a), at(101, b), ["try_create", [7]], ["update"]]))
+    for p in far_pos:
+        # a station that moves out of range is no longer counted; one that moves in is
+        sc.append(("create_moved", [at(100, near_pos[0]), at(101, near_pos[2]), at(102, near_pos[3]), at(102, p),
+                                    ["try_create", [7]], at(102, near_pos[4]), ["try_create", [9]]]))
+    # the leader's member bookkeeping with every leave reason, repeated indications, and a leave without a join
+    for r in range(9):
+        lv = rx(60, leave=7)
+        lv[1]["leave_reason"] = r
+        lv2 = rx(61, leave=7)
+        lv2[1]["leave_reason"] = r
+        sc.append((f"member_leave_reason_{r}", neighbours() + [["try_create", [7]], rx(60, join=7), rx(61, join=7), lv, lv,
+                                                               ["update"], lv2, rx(62, leave=7), ["update"]]))
+    batch = []
+    for name, evs in sc:
+        for mode in ("decoded", "coder"):
+            batch.append({"own": 1, "profile": 0, "t0": T0_DEFAULT, "events": evs, "mode": mode})
+    check_batch(ctx, batch, "audit_geometry_and_reasons")
+    random_sequences(ctx, n_random, 200, gen_factory=random_gen_positions, kind="random_positions_depth200")
+
 # ---------------------------------------------------------------------------
 
 def run_witness(ctx, w):
@@ -748,7 +1027,10 @@ def run(ctx):
                 "reduced alphabet from five start states, hand-written threshold-boundary scenarios, adaptive random "
                 "sequences of depth 200 (VAMs as unit-test dicts, as decoded structures, and through the real "
                 "coder), malformed VAM dicts, and 2-/3-station closed loops (plus three by-standers) through "
-                "VAMTransmissionManagement, VAMCoder and VAMReceptionManagement; every executed event is counted as one "
+                "VAMTransmissionManagement, VAMCoder and VAMReceptionManagement; audit round: senders in every direction "
+                "at 1 / 3.8 / 6.3 / 111 m, received leave indications with every reason, closed loops ending in a "
+                "cancelled join, a failed join, VRU_ROLE_OFF of a member / of the leader, rounds of 50 ms .. 1.3 s, and a "
+                "second cluster with the roles swapped; every executed event is counted as one "
                 "evaluation; a sequence is non-trivial when it visits at least two different control states (state "
                 "name, join / leave sub-state, kind of operation container), distinct by (start time, station, events)")
     vc, K = ci.modules()
@@ -785,12 +1067,17 @@ def run(ctx):
         exhaustive(ctx, 4, False, ["fresh", "neighbours"])
         exhaustive(ctx, 3, True, ["leader", "passive", "joining"])
         random_sequences(ctx, 120, 200)
+        # audit round (kept after the first-generation cases: a failure reported from here was missed by them)
+        audit_sequences(ctx, 40)
+        audit_loops(ctx, 1)
         ctx.exhaustive = False
     else:
         exhaustive(ctx, 5, False, ["fresh", "neighbours"])
         exhaustive(ctx, 4, True, ["fresh", "neighbours", "leader", "passive", "joining"])
         exhaustive(ctx, 4, False, ["fresh"], t0=0)
         random_sequences(ctx, 2500, 200)
+        audit_sequences(ctx, 800)
+        audit_loops(ctx, 8)
         ctx.exhaustive = False
 
 
